@@ -878,6 +878,13 @@ def _execute(p, s, res):
                 earlier = [x for x in M.sched if x[0] < w]
                 if earlier:
                     _violate(res, "scheduled_events_out_of_time_order", si, {"returned_when": w, "still_pending": earlier})
+                # equal times: time order says nothing, "events from one trigger in trigger order" does (all
+                # scheduled events of a run come from the one scheduled_event_trigger callback)
+                same = [x for x in M.sched if x[0] == w and x[1] < n]
+                if same and not earlier:
+                    _violate(res, "events_of_one_trigger_out_of_order", si,
+                             {"serial": n, "when": w - world.t0, "triggered_earlier_for_the_same_time_and_still_pending": [x[1] for x in same],
+                              "trigger": "scheduled_event_trigger"})
             if world.main_waited:
                 world.probe("scheduled_woke_request")
         elif isinstance(r, Ev):
